@@ -163,6 +163,7 @@ func TestZZVerifC06Server(t *testing.T) {
 			// ---- choose a write
 			var kind, desc string
 			var do func() error
+			target := "" // the point read of the subject this write touches
 			switch hr.Intn(10) {
 			case 0, 1, 2:
 				op := core.Pick(hr, []api.KVOp{api.KVSet, api.KVSet, api.KVDelete, api.KVDeleteTree, api.KVCAS})
@@ -171,6 +172,7 @@ func TestZZVerifC06Server(t *testing.T) {
 					key = core.Pick(hr, []string{"a", "a/", ""})
 				}
 				kind, desc = "kv:"+string(op), fmt.Sprintf("KVS.Apply %s %q", op, key)
+				target = "KVS.Get:" + key
 				do = func() error {
 					var ok bool
 					return srv.RPC(context.Background(), "KVS.Apply", &structs.KVSRequest{Datacenter: "dc1", Op: op, DirEnt: structs.DirEntry{Key: key, Value: []byte(fmt.Sprint("v", step))}}, &ok)
@@ -230,6 +232,7 @@ func TestZZVerifC06Server(t *testing.T) {
 					op = structs.ConfigEntryDelete
 				}
 				kind, desc = "config:"+string(op), fmt.Sprintf("ConfigEntry.%s service-defaults/%s %s", op, sv, e.Protocol)
+				target = "ConfigEntry.Get:service-defaults/" + sv
 				do = func() error {
 					if del {
 						var out structs.ConfigEntryDeleteResponse
@@ -247,25 +250,40 @@ func TestZZVerifC06Server(t *testing.T) {
 				done chan uint64
 			}
 			var parks []parked
+			park := func(qi int) {
+				if prev[qi].err != "" || prev[qi].idx == 0 {
+					return
+				}
+				p := parked{qi, prev[qi].idx, make(chan uint64, 1)}
+				q := qs[qi]
+				go func() {
+					r := q.reply()
+					// its own timeout is far beyond the bound used below: a parked call that comes back
+					// was woken by the write, not by MaxQueryTime
+					if err := srv.RPC(context.Background(), q.meth, q.args(p.min, 90*time.Second), r); err != nil {
+						p.done <- 0
+						return
+					}
+					i, _ := zv6Meta(r)
+					p.done <- i
+				}()
+				parks = append(parks, p)
+			}
 			if hr.Chance(35) {
 				for k := 0; k < 5; k++ {
-					qi := hr.Intn(len(qs))
-					if prev[qi].err != "" || prev[qi].idx == 0 {
-						continue
-					}
-					p := parked{qi, prev[qi].idx, make(chan uint64, 1)}
-					q := qs[qi]
-					go func() {
-						r := q.reply()
-						if err := srv.RPC(context.Background(), q.meth, q.args(p.min, 8*time.Second), r); err != nil {
-							p.done <- 0
-							return
-						}
-						i, _ := zv6Meta(r)
-						p.done <- i
-					}()
-					parks = append(parks, p)
+					park(hr.Intn(len(qs)))
 				}
+			}
+			if target != "" && hr.Chance(70) {
+				// the point read of the very subject that is about to be written / deleted
+				for qi, q := range qs {
+					if q.name == target {
+						park(qi)
+						run.Count("server-blocking-rpcs-parked-on-written-subject")
+					}
+				}
+			}
+			if len(parks) > 0 {
 				time.Sleep(30 * time.Millisecond) // let them reach the blocking loop (not a verdict)
 			}
 			werr := do()
@@ -309,8 +327,11 @@ func TestZZVerifC06Server(t *testing.T) {
 					if got <= p.min {
 						run.Violation("C06:server:blocking-rpc:returned-without-larger-index:"+qs[p.qi].meth, fmt.Sprintf("%s blocked at index %d returned index %d after %s changed its result", qs[p.qi].name, p.min, got, desc), map[string]any{"log": log})
 					}
-				case <-time.After(12 * time.Second):
-					run.Inconclusive(fmt.Sprintf("blocked %s did not return within 12s after %s", qs[p.qi].name, desc))
+				case <-time.After(15 * time.Second):
+					// Decided in logical steps first: the write committed and every endpoint of the universe
+					// (~55 fresh RPCs, one of them the same read) has answered since, with the new result and a
+					// larger index, while this call - whose own timeout is 90 s - is still parked.
+					run.Violation("C06:server:blocking-rpc:not-woken-by-change:"+qs[p.qi].meth, fmt.Sprintf("%s blocked at index %d was not woken by %s although its result changed (still parked after every endpoint was read again and 15 s passed; its own MaxQueryTime is 90 s)", qs[p.qi].name, p.min, desc), map[string]any{"log": log})
 				}
 			}
 		}
@@ -319,6 +340,7 @@ func TestZZVerifC06Server(t *testing.T) {
 	run.Floor("server-reply-changes", 400)
 	run.FloorDistinct("server-endpoint-with-change", 10)
 	run.Floor("server-blocking-rpcs-released", 5)
+	run.Floor("server-blocking-rpcs-parked-on-written-subject", 20)
 	if run.Finish() == 1 {
 		t.Fail()
 	}
